@@ -125,21 +125,24 @@ theorem mem_trackers {t : Table} {q : Tracker} {f : File} (hf : t[q.src]? = some
 
 /-! ### `finish` -/
 
-theorem finish_all_eq (R : MResult) : ∀ (l : List MResult), (∀ r ∈ l, r = R) → finish R l = R := by
+theorem noLoc_fields {r x : MResult} (h : noLoc r = x) : r.kind = x.kind ∧ r.src = x.src ∧ r.ref = x.ref := by
+  subst h; exact ⟨rfl, rfl, rfl⟩
+
+theorem finish_all_eq (R : MResult) : ∀ (l : List MResult), (∀ r ∈ l, noLoc r = noLoc R) → finish R l = R := by
   intro l h
   unfold finish
-  have : l.find? (· ≠ R) = none := by
+  have : l.find? (fun a => noLoc a ≠ noLoc R) = none := by
     rw [List.find?_eq_none]
     intro r hr
     simp [h r hr]
   rw [this]
 
-theorem finish_append_eq (R : MResult) (l1 l2 : List MResult) (h : ∀ r ∈ l2, r = R) :
+theorem finish_append_eq (R : MResult) (l1 l2 : List MResult) (h : ∀ r ∈ l2, noLoc r = noLoc R) :
     finish R (l1 ++ l2) = finish R l1 := by
   unfold finish
-  have : (l1 ++ l2).find? (· ≠ R) = l1.find? (· ≠ R) := by
+  have : (l1 ++ l2).find? (fun a => noLoc a ≠ noLoc R) = l1.find? (fun a => noLoc a ≠ noLoc R) := by
     rw [List.find?_append]
-    cases h1 : l1.find? (· ≠ R) with
+    cases h1 : l1.find? (fun a => noLoc a ≠ noLoc R) with
     | some x => simp
     | none =>
       simp only [Option.none_or]
@@ -148,9 +151,10 @@ theorem finish_append_eq (R : MResult) (l1 l2 : List MResult) (h : ∀ r ∈ l2,
       simp [h r hr]
   rw [this]
 
-theorem finish_kind_of_ne (R : MResult) (l : List MResult) (h : ∃ r ∈ l, r ≠ R) : (finish R l).kind = .ambiguous := by
+theorem finish_kind_of_ne (R : MResult) (l : List MResult) (h : ∃ r ∈ l, noLoc r ≠ noLoc R) :
+    (finish R l).kind = .ambiguous := by
   unfold finish
-  cases hf : l.find? (· ≠ R) with
+  cases hf : l.find? (fun a => noLoc a ≠ noLoc R) with
   | none =>
     obtain ⟨r, hr, hne⟩ := h
     have := List.find?_eq_none.1 hf r hr
